@@ -650,6 +650,26 @@ func c20CheckDescCase(c c20DescCase) engine.Result {
 						}
 					}
 				}
+				// the descriptor at PROGRAM level, in front of a first stream that has no descriptors of its own, a
+				// stream with three and one with one (the descriptor under test): each stream reports its own list
+				// only, also after the caller appended to the list it got for the stream before
+				sec2 := ref.PMTSection{Program: 1, Version: 2, CurrentNext: true, PCRPID: 0x101, ProgDescs: []ref.Desc{{Tag: byte(T), Body: b.body}},
+					Streams: []ref.Stream{{Type: 0x1B, PID: 0x101}, {Type: 0x0F, PID: 0x102, Descs: []ref.Desc{lead, {Tag: 0x52, Body: []byte{2}}, {Tag: 0x0A, Body: []byte("eng\x00")}}},
+						{Type: 0x81, PID: 0x103, Descs: []ref.Desc{{Tag: byte(T), Body: b.body}}}}}
+				if pmt2, err := psi.NewPMT(append(ref.Pointer(0), sec2.Bytes()...)); err != nil || len(pmt2.ElementaryStreams()) != 3 {
+					res.Failf("NewPMT|program-level-descriptor|stream-list", "tag %#x body % x: err=%v", T, b.body, err)
+				} else {
+					es := pmt2.ElementaryStreams()
+					if n := len(es[0].Descriptors()); n != 0 || es[0].MaxBitRate() != 0 || es[0].IsTTMLSubtitling() {
+						res.Failf("NewPMT|program-level-descriptor|leaks-into-first-stream", "tag %#x body % x at program level: the first stream (no descriptors) reports %d descriptors, MaxBitRate %d", T, b.body, n, es[0].MaxBitRate())
+					}
+					_ = append(es[1].Descriptors(), psi.NewPmtDescriptor(0x0E, []byte{0xC0, 0x00, 0x01}), psi.NewPmtDescriptor(0x7F, []byte{0x20, 'x', 'y', 'z', 0x10}))
+					if ds := es[2].Descriptors(); len(ds) != 1 {
+						res.Failf("NewPMT|descriptor-list-of-the-next-stream", "tag %#x: %d descriptors", T, len(ds))
+					} else {
+						c20CheckDesc(&res, "NewPMT-after-append-to-the-previous-stream's-list", ds[0], T, c.Family, b)
+					}
+				}
 			}
 			if len(res.Fail) > 6 {
 				return
